@@ -185,6 +185,93 @@ def check_graph(plan, cases):
         db2.close()
 
 
+def extra_scenarios(cases):
+    """(a) one object per id also after ZODB.Connection.resetCaches() and re-opening the pooled connection: an object
+    reached by get(oid) and by a stored reference is the same object; (b) a weak reference into a database that is
+    not configured never resolves to an object of the local database."""
+    import ZODB.Connection
+    st = MappingStorage()
+    db = ZODB.DB(st)
+    try:
+        tm = transaction.TransactionManager()
+        conn = db.open(tm)
+        a, b = Node('a'), Node('b')
+        a.slots['peer'] = b
+        conn.root()['a'] = a
+        conn.root()['b'] = b
+        tm.commit()
+        oa, ob = a._p_oid, b._p_oid
+        conn.close()
+        ZODB.Connection.resetCaches()
+        c2 = db.open(tm)
+        cases += 1
+        same_conn = c2 is conn
+        via_get_a, via_get_b = c2.get(oa), c2.get(ob)
+        via_ref_a = c2.root()['a']
+        via_ref_b = via_ref_a.slots['peer']
+        if via_get_a is not via_ref_a or via_get_b is not via_ref_b or c2.root()['b'] is not via_get_b:
+            return fail({'scenario': 'commit a -> b; close; ZODB.Connection.resetCaches(); db.open() (same pooled '
+                         'connection: %s); get(oid) versus the object reached through stored references' % same_conn},
+                        'one in-memory object per oid', 'get(oid) and the reference lead to different objects', cases)
+        c2.close()
+    finally:
+        db.close()
+    # (b)
+    import os
+    import shutil
+    import tempfile
+    from ZODB.FileStorage import FileStorage
+    d = tempfile.mkdtemp(prefix='c14-')
+    try:
+        return _weak_into_missing_database(d, cases, FileStorage)
+    finally:
+        shutil.rmtree(d, ignore_errors=True)
+
+
+def _weak_into_missing_database(d, cases, FileStorage):
+    import os
+    st1, st2 = FileStorage(os.path.join(d, 'main.fs')), FileStorage(os.path.join(d, 'other.fs'))
+    databases = {}
+    db1 = ZODB.DB(st1, databases=databases, database_name='main')
+    db2 = ZODB.DB(st2, databases=databases, database_name='other')
+    tm = transaction.TransactionManager()
+    c1 = db1.open(tm)
+    co = c1.get_connection('other')
+    for k in range(3):
+        co.root()['t%d' % k] = Node('target%d' % k)
+        c1.root()['l%d' % k] = Node('local%d' % k)
+    tm.commit()
+    c1.root()['w'] = Node('holder')
+    c1.root()['w'].slots['weak'] = WeakRef(co.root()['t1'])
+    tm.commit()
+    target_oid = co.root()['t1']._p_oid
+    c1.close()
+    db1.close()
+    db2.close()
+    alone = ZODB.DB(FileStorage(os.path.join(d, 'main.fs')), database_name='main')
+    try:
+        tm = transaction.TransactionManager()
+        c = alone.open(tm)
+        cases += 1
+        try:
+            w = c.root()['w'].slots['weak']
+            v = w()
+            obs = None if v is None else ('object %r of database %r' % (
+                getattr(v, 'name', v), v._p_jar.db().database_name if v._p_jar is not None else None))
+        except KeyError as e:
+            obs = None
+        except Exception as e:  # noqa
+            obs = None if isinstance(e, (POSException.POSError, AttributeError)) else '%s: %s' % (type(e).__name__, e)
+        if obs is not None:
+            return fail({'scenario': "weak reference from 'main' to oid %d of database 'other'; 'main' opened without "
+                         "'other' configured; the reference is called" % u64(target_oid)},
+                        'a dead reference or an error - never an object of another identity', obs, cases)
+        c.close()
+    finally:
+        alone.close()
+    return {'found': False, 'cases': cases}
+
+
 def search(func, candidate, seed, tier, obligation=''):
     logging.disable(logging.CRITICAL)
     rnd = random.Random(seed)
@@ -205,4 +292,4 @@ def search(func, candidate, seed, tier, obligation=''):
                      '%s: %s' % (type(e).__name__, str(e)[:200]), cases)
         if r:
             return r
-    return {'found': False, 'cases': cases}
+    return extra_scenarios(cases)
